@@ -36,7 +36,14 @@ META = dict(
          "explicit recursion-depth bound |g|(R+3)+R+2 only for grammars in which every cycle passes through a "
          "custom-named, extraction-worthy node - stated with a rank function, read by ranked_cycle_has_cut; the "
          "full statement also covers unnamed cycles, where it is false - diverges_of_unnamed_loop proves "
-         "non-termination for EVERY grammar whose root lies on a cycle of unnamed elements). links_resolve, no_empty_placeholder, root_first, tokens_covered are NOT proved in "
+         "non-termination for EVERY grammar whose root lies on a cycle of unnamed elements). "
+         "links_resolve_partial (PPProofs/Props/C20Links.lean): for ALL grammars in which no element has the custom "
+         "name '...' (the registered dangling-link shape, decidable predicate noEllipsisName on the node table), all "
+         "options, all roots and every fuel at which the model returns, every NonTerminal of every returned diagram "
+         "names a returned diagram - proved by an invariant over the whole conversion (every NonTerminal carries the "
+         "custom name of an extracted or pending element; a returning call leaves no new pending element); partial "
+         "only in that hypothesis, which dangling_link_witness shows is needed. "
+         "no_empty_placeholder, root_first, tokens_covered are NOT proved in "
          "general: they are decided by the oracle on the real code over generated grammars and by the "
          "model-vs-code correspondence.",
     note="Trusted: Lean kernel; axioms propext/Classical.choice/Quot.sound; the transcription of "
@@ -62,6 +69,7 @@ THEOREMS = [
     "PP.Diagram.unnamed_forward_root_witness",
     "PP.Diagram.root_not_first_witness",
     "PP.Diagram.named_cycle_ok",
+    "PP.Diagram.links_resolve_partial",
 ]
 
 STUB_DIR = Path(__file__).resolve().parent.parent / "railroad_stub"
@@ -838,7 +846,8 @@ def _how(case, opts):
 def run(ctx):
     pp, D, stub = load_diagram()
     ok_proof = ctx.proof_leg("PPProofs.Props.C20", THEOREMS,
-                             generated={"PPProofs/Props/Gen/C20Witness.lean": gen_witness_lean()})
+                             generated={"PPProofs/Props/Gen/C20Witness.lean": gen_witness_lean()},
+                             extra_modules=("PPProofs.Props.C20Links",))
     ctx.rule.append(
         "random grammar programs (2-4 token leaves from 13 kinds, 0-2 Forwards, Empty/Tag, `size` composites over "
         "And/MatchFirst/Or/Each/+/-/Opt/ZeroOrMore/OneOrMore/Group/Suppress/Combine/Dict/NotAny/FollowedBy/"
